@@ -14,13 +14,124 @@ import time
 CVC5 = '/usr/bin/cvc5'
 
 
+_HUBS = ('card_', 'rangeset')
+
+
+def _symbols(t, z3):
+  out = set()
+  stack = [t]
+  seen = set()
+  while stack:
+    x = stack.pop()
+    if x.get_id() in seen:
+      continue
+    seen.add(x.get_id())
+    if z3.is_quantifier(x):
+      stack.append(x.body())
+      continue
+    if z3.is_app(x):
+      d = x.decl()
+      if d.kind() == z3.Z3_OP_UNINTERPRETED:
+        n = d.name()
+        if not n.startswith(_HUBS):
+          out.add(n)
+      stack.extend(x.children())
+  return out
+
+
+def _slices(fs, z3):
+  """Hypothesis slices of growing relevance distance from the goal (the last
+  assertion).  Dropping hypotheses is sound: unsat of a slice proves the
+  obligation."""
+  goal = fs[-1]
+  hyps = [(f, _symbols(f, z3)) for f in fs[:-1]]
+  cur = _symbols(goal, z3)
+  chosen = []
+  rest = hyps
+  out = []
+  for _ in range(3):
+    new = [(f, sy) for f, sy in rest if sy & cur]
+    if not new:
+      break
+    rest = [(f, sy) for f, sy in rest if not (sy & cur)]
+    for f, sy in new:
+      chosen.append(f)
+      cur = cur | sy
+    out.append(list(chosen) + [goal])
+    if not rest:
+      break
+  return out
+
+
+def _has_quantifier(t, z3):
+  stack = [t]
+  seen = set()
+  while stack:
+    x = stack.pop()
+    if x.get_id() in seen:
+      continue
+    seen.add(x.get_id())
+    if z3.is_quantifier(x):
+      return True
+    if z3.is_app(x):
+      stack.extend(x.children())
+  return False
+
+
+def _try(z3, fs, ms):
+  s1 = z3.Solver()
+  s1.set('timeout', int(ms))
+  s1.add(fs)
+  return s1.check() == z3.unsat
+
+
 def _z3_check(smt2, timeout_ms, want_model=True):
   import z3
   t0 = time.time()
+  try:
+    fs = list(z3.parse_smt2_string(smt2))
+  except z3.Z3Exception as e:
+    return {'backend': 'z3', 'result': 'error', 'reason': str(e)[:500],
+            'time': time.time() - t0}
+  # Portfolio over hypothesis subsets (dropping hypotheses is sound: unsat of
+  # a subset proves the obligation): quantifier-free path condition, then
+  # + cardinality lemma instances, then relevance slices, then everything.
+  goal = fs[-1]
+  lemmas, qf, quant = [], [], []
+  for f in fs[:-1]:
+    if z3.is_implies(f) and z3.is_const(f.arg(0)) and str(
+        f.arg(0)) == '__grp_lemma':
+      lemmas.append(f.arg(1))
+    elif z3.is_const(f) and str(f) == '__grp_lemma':
+      continue
+    elif _has_quantifier(f, z3):
+      quant.append(f)
+    else:
+      qf.append(f)
+  fs = qf + lemmas + quant + [goal]
+  short = max(400, timeout_ms // 8)
+  stages = []
+  if quant or lemmas:
+    stages.append(('qf', qf + [goal]))
+  if lemmas and quant:
+    stages.append(('qf+lemmas', qf + lemmas + [goal]))
+  for name, sub in stages:
+    if _try(z3, sub, short):
+      return {'backend': 'z3', 'result': 'unsat', 'time': time.time() - t0,
+              'slice': '%s: %d/%d hypotheses' % (name, len(sub) - 1,
+                                                 len(fs) - 1)}
+  if len(fs) > 12:
+    for k, sl in enumerate(_slices(fs, z3)):
+      if len(sl) >= len(fs):
+        break
+      if _try(z3, sl, short):
+        return {'backend': 'z3', 'result': 'unsat', 'time': time.time() - t0,
+                'slice': 'relevance depth %d: %d/%d hypotheses' % (
+                    k + 1, len(sl) - 1, len(fs) - 1)}
   s = z3.Solver()
   s.set('timeout', int(timeout_ms))
   try:
-    s.from_string(smt2)
+    s.add(fs)
     r = s.check()
   except z3.Z3Exception as e:
     return {'backend': 'z3', 'result': 'error', 'reason': str(e)[:500],
